@@ -15,7 +15,7 @@ import re
 import sys
 
 sys.path.insert(0, os.path.dirname(os.path.abspath(__file__)))
-from rustlex import (LexError, close_of, find_all, find_match, find_seq, impl_body, is_id, is_p, item_body, lex, match_arms,
+from rustlex import (LexError, all_fns, close_of, find_all, find_match, find_seq, impl_body, is_id, is_p, item_body, lex, match_arms,
                      split_top, strip_attrs, text_of)
 
 REPO = os.environ.get("VERIF_REPO", "/repo")
@@ -169,7 +169,7 @@ FAILED = {}   # table name -> reason
 # list says whose statements or oracles mention what the table defines)
 ALL = ["C%02d" % i for i in range(1, 21)]
 DEPS = {
-    "token.enum": ALL, "token.display": ALL, "token.keywords": ALL, "token.chars": ALL, "token.order": ALL,
+    "token.enum": ALL, "token.display": ALL, "token.keywords": ALL, "token.chars": ALL, "token.order": ["C12", "C13", "C14"],
     "tokentype": ["C05", "C20"],
     "lsp": ["C20"],
     "builtins": ["C01", "C02", "C03", "C06", "C07", "C09", "C16", "C17", "C18"],
@@ -245,59 +245,96 @@ def _():
     return disp
 
 
+def keyword_sites(toks):
+    """(matcher method name, chain fn (name, o, c)) of the keyword chain, found by shape: the function with at least five
+    `self.M("KEYWORD") { Some(Token::V) }` sites, or with one `M(` call next to a table of ("KEYWORD", Token::V) pairs"""
+    best = None
+    for name, o, c in all_fns(toks):
+        hits = {}
+        for i in find_all(toks, ["self", ".", ("id", None), "(", ("str", None), ")", "{"], o, c):
+            hits.setdefault(toks[i + 2][1], []).append(i)
+        for m, sites in hits.items():
+            if len(sites) >= 5 and (best is None or len(sites) > len(best[2])):
+                best = (m, (name, o, c), sites)
+    return best
+
+
 @table("token.keywords")
 def _():
     toks = toks_of(TOK)
-    o, c = fn_body(toks, "chomp_any_keyword", TOK)
+    best = keyword_sites(toks)
     kws = []
-    for i in find_all(toks, ["chomp_keyword", "(", ("str", None), ")"], o, c):
-        kw = toks[i + 2][1]
-        j = i + 4
-        need(is_p(toks[j], "{"), "chomp_any_keyword chain: block after chomp_keyword(%r)" % kw)
-        blk = toks[j + 1:close_of(toks, j)]
-        k = find_seq(blk, ["Token", "::", ("id", None)])
-        need(k >= 0 and len(find_all(blk, ["Token", "::"])) == 1, "chomp_any_keyword chain: result of %r" % kw)
-        kws.append((kw, blk[k + 2][1]))
-    if not kws:
+    if best:
+        m, (fname, o, c), sites = best
+        for i in sites:
+            kw = toks[i + 4][1]
+            blk = toks[i + 7:close_of(toks, i + 6)]
+            k = find_seq(blk, ["Token", "::", ("id", None)])
+            need(k >= 0 and len(find_all(blk, ["Token", "::"])) == 1, "keyword chain: result of %r" % kw)
+            kws.append((kw, blk[k + 2][1]))
+        if len(kws) != len(find_all(toks, [m, "("], o, c)):
+            raise Missing("keyword chain: a call of %s that is not of the form %s(\"KEYWORD\") { Some(Token::V) }" % (m, m))
+    else:
         # table-driven form: one array literal of ("KEYWORD", Token::Variant) pairs, tried in order
         tables = []
         for i in find_all(toks, ["[", "(", ("str", None), ",", "Token", "::"]):
             parts = split_top(toks[i + 1:close_of(toks, i)])
             if parts and all(len(q) == 7 and is_p(q[0], "(") and q[1][0] == "str" and is_p(q[2], ",") and is_id(q[3], "Token") and q[5][0] == "id" and is_p(q[6], ")") for q in parts):
-                tables.append([(q[1][1], q[5][1]) for q in parts])
-        need(len(tables) == 1 and find_seq(toks, ["chomp_keyword", "("], o, c) >= 0, "chomp_any_keyword chain (neither an if-chain nor one keyword table)")
-        kws = tables[0]
-    elif len(kws) != len(find_all(toks, ["chomp_keyword"], o, c)):
-        raise Missing("chomp_any_keyword chain")
+                tables.append((i, [(q[1][1], q[5][1]) for q in parts]))
+        need(len(tables) == 1, "keyword chain (neither an if-chain nor one keyword table)")
+        kws = tables[0][1]
+        # the matcher is the method called with a non-literal argument in the function that walks the table
+        m, fname = None, None
+        for name, o, c in all_fns(toks):
+            if o < tables[0][0] < c or find_seq(toks, ["KEYWORDS"], o, c) >= 0:
+                for i in find_all(toks, ["self", ".", ("id", None), "(", ("id", None), ")"], o, c):
+                    m, fname = toks[i + 2][1], name
+        need(m, "keyword chain: matcher call next to the keyword table")
     if len(kws) < 5:
-        raise Missing("chomp_any_keyword chain")
+        raise Missing("keyword chain")
 
-    def one_kw(fn):
-        fo, fc = fn_body(toks, fn, TOK)
-        hits = find_all(toks, ["chomp_keyword", "(", ("str", None), ")"], fo, fc)
-        need(len(hits) == 1, "keyword of " + fn)
-        return toks[hits[0] + 2][1]
-
-    return kws, one_kw("chomp_remark"), one_kw("chomp_data")
+    # REM and DATA: the other functions that call the same matcher with one literal, told apart by the token they build
+    special = {}
+    for name, o, c in all_fns(toks):
+        if name == fname:
+            continue
+        hits = find_all(toks, [m, "(", ("str", None), ")"], o, c)
+        if len(hits) == 1:
+            for variant in ("Remark", "Data"):
+                if find_seq(toks, ["Token", "::", variant], o, c) >= 0:
+                    need(variant not in special, "keyword of the %s matcher (two candidates)" % variant)
+                    special[variant] = (toks[hits[0] + 2][1], name)
+    need("Remark" in special and "Data" in special, "REM / DATA keyword")
+    T["_fn.keywords"], T["_fn.remark"], T["_fn.data"] = fname, special["Remark"][1], special["Data"][1]
+    return kws, special["Remark"][0], special["Data"][0]
 
 
 @table("token.chars")
 def _():
     toks = toks_of(TOK)
-    o, c = fn_body(toks, "chomp_one_or_two_characters", TOK)
-    mi = find_match(toks, ["byte"], o, c)
-    need(mi >= 0, "one-character table")
+    # by shape: the function holding a match with at least five `b'c' => Token::V` arms
+    site = None
+    for name, o, c in all_fns(toks):
+        for mi in find_all(toks, ["match"], o, c):
+            brace = find_seq(toks, ["{"], mi, c)
+            if brace < 0:
+                continue
+            arms = match_arms(toks, brace)
+            n = sum(1 for pat, body in arms if len(pat) == 1 and pat[0][0] == "byte" and len(body) == 3 and is_id(body[0], "Token"))
+            if n >= 5:
+                need(site is None, "one-character table (two candidates)")
+                site = (name, o, c, arms)
+    need(site, "one-character table")
+    name, o, c, arms = site
     one = []
-    for pat, body in match_arms(toks, mi):
+    for pat, body in arms:
         if len(pat) == 1 and pat[0][0] == "byte":
             need(len(body) == 3 and is_id(body[0], "Token") and body[2][0] == "id", "one-character arm " + text_of(pat + body))
             one.append((pat[0][1], body[2][1]))
         elif not (len(pat) == 1 and is_id(pat[0], "_")):
             raise Missing("one-character table: arm " + text_of(pat))
-    if len(one) < 5:
-        raise Missing("one-character table")
     two = []
-    for i in find_all(toks, ["token", "==", "Token", "::", ("id", None), "{"], o, c):
+    for i in find_all(toks, [("id", None), "==", "Token", "::", ("id", None), "{"], o, c):
         first = toks[i + 4][1]
         bo, bc = i + 5, close_of(toks, i + 5)
         for j in find_all(toks, [("id", None), "==", ("byte", None), "{"], bo, bc):
@@ -307,16 +344,39 @@ def _():
             two.append((first, toks[j + 2][1], blk[k + 2][1]))
     if sorted(two) != sorted([("LessThan", ">", "NotEquals"), ("LessThan", "=", "LessThanOrEqualTo"), ("GreaterThan", "=", "GreaterThanOrEqualTo")]):
         raise Missing("two-character operator table changed: %r" % two)
+    T["_fn.chars"] = name
     return one, two
 
 
 @table("token.order")
 def _():
+    """the main loop tries: keywords, one/two-character operators, string, number, REM, DATA, symbol - in this order"""
     toks = toks_of(TOK)
-    o, c = fn_body(toks, "chomp_next_token", TOK)
-    order = [toks[i + 2][1] for i in find_all(toks, ["self", ".", ("id", None), "(", ")"], o, c) if toks[i + 2][1].startswith("chomp_")]
-    if order != ["chomp_any_keyword", "chomp_one_or_two_characters", "chomp_string", "chomp_number", "chomp_remark", "chomp_data", "chomp_symbol"]:
-        raise Missing("matcher order in chomp_next_token changed: %r" % order)
+    roles = {}
+    for r in ("keywords", "chars", "remark", "data"):
+        roles[need(T.get("_fn." + r), "matcher order: the %s matcher was not identified" % r)] = r
+    names = {n: (o, c) for n, o, c in all_fns(toks)}
+    main = None
+    for n, (o, c) in names.items():
+        called = [toks[i + 2][1] for i in find_all(toks, ["self", ".", ("id", None), "(", ")"], o, c)]
+        if all(k in called for k in roles):
+            main = (n, [k for k in called if k in names and k != n])
+    need(main, "matcher order: the function that tries the matchers in turn")
+    order = []
+    for k in main[1]:
+        if k in roles:
+            order.append(roles[k])
+        else:
+            o, c = names[k]
+            if find_seq(toks, [("byte", '"')], o, c) >= 0:
+                order.append("string")
+            elif find_seq(toks, ["parse"], o, c) >= 0:
+                order.append("number")
+            else:
+                order.append("other:" + k)
+    want = ["keywords", "chars", "string", "number", "remark", "data"]
+    if order[:6] != want or len(order) != 7 or not order[6].startswith("other:"):
+        raise Missing("matcher order of the tokenizer's main loop changed: %r" % order)
     return order
 
 
@@ -361,15 +421,25 @@ def _():
             legends.append([p[2][1] for p in parts])
     need(len(legends) == 1, "LSP legend (array of SemanticTokenType::X)")
     legend = legends[0]
-    o, c = fn_body(toks, "abasic_token_type_to_lsp_token_type", rel)
-    mi = find_seq(toks, ["match"], o, c)
-    brace = find_seq(toks, ["{"], mi, c)
-    lspidx = {}
-    for pat, body in match_arms(toks, brace):
-        for alt in split_top(pat, "|"):
-            v = variant_of(alt, "TokenType")
-            need(v and len(body) == 1 and body[0][0] == "num", "LSP index arm " + text_of(pat + body))
-            lspidx[v[0]] = int(re.match(r"\d+", body[0][1]).group(0))
+    # by shape: the one match whose arms are all `TokenType::X => <number>`
+    found = []
+    for mi in find_all(toks, ["match"]):
+        brace = find_seq(toks, ["{"], mi, min(len(toks), mi + 12))
+        if brace < 0:
+            continue
+        arms = match_arms(toks, brace)
+        idx, ok = {}, bool(arms)
+        for pat, body in arms:
+            for alt in split_top(pat, "|"):
+                v = variant_of(alt, "TokenType")
+                if not (v and len(body) == 1 and body[0][0] == "num"):
+                    ok = False
+                    break
+                idx[v[0]] = int(re.match(r"\d+", body[0][1]).group(0))
+        if ok:
+            found.append(idx)
+    need(len(found) == 1, "LSP index map (match from TokenType to legend index)")
+    lspidx = found[0]
     ttypes, _c = need(T.get("tokentype"), "enum TokenType")
     for t in ttypes:
         if t not in lspidx:
@@ -414,15 +484,33 @@ def _():
 def _():
     rel = "abasic-core/src/interpreter.rs"
     toks = toks_of(rel)
-    o, c = fn_body(toks, "maybe_process_command", rel)
-    mi = find_seq(toks, ["match"], o, c)
-    brace = find_seq(toks, ["{"], mi, c)
-    need(mi >= 0 and brace >= 0, "command table")
+    # by shape: the match with string-literal arms that include "RUN"
+    site = None
+    for mi in find_all(toks, ["match"]):
+        brace = -1
+        for k in range(mi + 1, min(len(toks), mi + 30)):
+            if is_p(toks[k], "{"):
+                brace = k
+                break
+            if is_p(toks[k], ";"):
+                break
+        if brace < 0:
+            continue
+        arms = match_arms(toks, brace)
+        lits = [alt[0][1] for pat, _b in arms for alt in split_top(pat, "|") if len(alt) == 1 and alt[0][0] == "str"]
+        if "RUN" in lits:
+            need(site is None, "command table (two candidates)")
+            site = (mi, brace, arms)
+    need(site, "command table")
+    mi, brace, arms = site
     scrut = text_of(toks[mi + 1:brace])
     if "to_ascii_uppercase" not in scrut and "to_uppercase" not in scrut:
-        raise Missing("command table: the word is no longer upper-cased before the match (%s)" % scrut)
+        # the upper-casing may happen in a `let` just before
+        back = text_of(toks[max(0, mi - 60):mi])
+        if "to_ascii_uppercase" not in back and "to_uppercase" not in back:
+            raise Missing("command table: the word is no longer upper-cased before the match (%s)" % scrut)
     commands = []
-    for pat, _b in match_arms(toks, brace):
+    for pat, _b in arms:
         for alt in split_top(pat, "|"):
             if len(alt) == 1 and alt[0][0] == "str":
                 commands.append(alt[0][1])
@@ -475,27 +563,29 @@ def _():
 
 
 def from_token_tables():
+    """{(Type, fn name): [Token variants mapped to Some(..)]} for every `fn(token: Token) -> Option<Self>`-shaped match in operators.rs"""
     rel = "abasic-core/src/operators.rs"
     toks = toks_of(rel)
     out = {}
     for i in find_all(toks, ["impl", ("id", None), "{"]):
         name = toks[i + 1][1]
         o, c = i + 2, close_of(toks, i + 2)
-        r = item_body(toks[:c + 1], "fn", "from_token", o)
-        if not r:
-            continue
-        mi = find_seq(toks, ["match"], r[0], r[1])
-        if mi < 0:
-            continue
-        brace = find_seq(toks, ["{"], mi, r[1])
-        heads = []
-        for pat, body in match_arms(toks, brace):
-            if find_seq(body, ["Some", "("]) == 0:
-                for alt in split_top(pat, "|"):
-                    v = variant_of(alt, "Token")
-                    need(v, "operators.rs: %s::from_token arm %s" % (name, text_of(pat)))
-                    heads.append(v[0])
-        out[name] = heads
+        for fname, fo, fc in all_fns(toks, o, c):
+            mi = find_seq(toks, ["match"], fo, fc)
+            if mi < 0:
+                continue
+            brace = find_seq(toks, ["{"], mi, fc)
+            heads, ok = [], True
+            for pat, body in match_arms(toks, brace):
+                if find_seq(body, ["Some", "("]) == 0:
+                    for alt in split_top(pat, "|"):
+                        v = variant_of(alt, "Token")
+                        if not v:
+                            ok = False
+                            break
+                        heads.append(v[0])
+            if ok and heads:
+                out[(name, fname)] = heads
     return out
 
 
@@ -513,72 +603,77 @@ def program_call(toks, i):
 
 
 def walker(rel, from_token):
+    """the precedence chain of a recursive-descent walker, found by SHAPE (function names do not matter): a tier is a
+    function with a `while ... accept_next_token(Token::X)` or `while let Some(_) = ... try_next_token(T::f)` loop; the
+    unary level takes one optional operator with `let _ = ... try_next_token(T::f)`; each tier calls the next one"""
     toks = toks_of(rel)
-    # the impl that holds evaluate_expression
-    eo, ec = fn_body(toks, "evaluate_expression", rel)
-    entry = None
-    for i in find_all(toks, ["self", ".", ("id", None), "(", ")"], eo, ec):
-        if toks[i + 2][1].startswith("evaluate_"):
-            entry = toks[i + 2][1]
-            break
-    need(entry, rel + ": evaluate_expression body")
-    chain, cur, unary = [], entry, None
-    for _ in range(12):
-        o, c = fn_body(toks, cur, rel)
-        operand = None
-        for i in find_all(toks, ["self", ".", ("id", None), "(", ")"], o, c):
-            if toks[i + 2][1].startswith("evaluate_"):
-                operand = toks[i + 2][1]
-                break
-        need(operand, rel + ": operand of " + cur)
-        tier = None
+    fns = all_fns(toks)
+    tier, unary = {}, {}
+    for name, o, c in fns:
         for i in find_all(toks, ["accept_next_token", "(", "Token", "::", ("id", None), ")"], o, c):
             s = program_call(toks, i)
             if s >= 1 and is_id(toks[s - 1], "while"):
-                tier = [toks[i + 4][1]]
-        for i in find_all(toks, ["try_next_token", "(", ("id", None), "::", "from_token", ")"], o, c):
+                tier[name] = [toks[i + 4][1]]
+        for i in find_all(toks, ["try_next_token", "(", ("id", None), "::", ("id", None), ")"], o, c):
             s = program_call(toks, i)
             if s < 0:
                 continue
-            ty = toks[i + 2][1]
+            key = (toks[i + 2][1], toks[i + 4][1])
             before = text_of(toks[max(o, s - 7):s])
             if re.search(r"while let Some\(\w+\)=$", before):
-                tier = need(from_token.get(ty), "operators.rs: %s::from_token" % ty)
+                tier[name] = need(from_token.get(key), "operators.rs: %s::%s" % key)
             elif re.search(r"let (mut )?\w+(:[^=]+)?=$", before) or re.search(r"(if|match) (let Some\(\w+\)=)?$", before):
-                unary = need(from_token.get(ty), "operators.rs: %s::from_token" % ty)
-        if unary is not None and tier is None:
-            break
-        if tier is None:
-            raise Missing(rel + ": cannot classify tier function " + cur)
-        chain.append(tier)
-        cur = operand
-    need(unary, rel + ": unary tier")
-    return chain, unary
+                unary[name] = need(from_token.get(key), "operators.rs: %s::%s" % key)
+    need(tier and len(unary) == 1, rel + ": precedence tiers (found %d loops, %d unary levels)" % (len(tier), len(unary)))
+    levels = set(tier) | set(unary)
+    operand = {}
+    for name, o, c in fns:
+        if name in tier:
+            called = {toks[i + 2][1] for i in find_all(toks, ["self", ".", ("id", None), "("], o, c)} & (levels - {name})
+            need(len(called) == 1, rel + ": operand level of " + name)
+            operand[name] = called.pop()
+    entries = [n for n in tier if n not in operand.values()]
+    need(len(entries) == 1, rel + ": outermost precedence tier")
+    chain, cur = [], entries[0]
+    for _ in range(len(tier) + 1):
+        if cur in unary:
+            return chain, unary[cur]
+        chain.append(need(tier.get(cur), rel + ": tier " + cur))
+        cur = operand[cur]
+    raise Missing(rel + ": precedence chain does not end in the unary level")
 
 
 @table("walkers")
 def _():
     ft = from_token_tables()
-    need(ft.get("UnaryOp"), "operators.rs: UnaryOp::from_token")
+    need(ft, "operators.rs: operator tables")
     return walker("abasic-core/src/expression.rs", ft), walker("abasic-core/src/analyzer/expression_analyzer.rs", ft)
 
 
 def dispatch(rel):
+    """the statement dispatcher, by shape: the match on `...next_token()` that has an arm for Some(Token::Dim)"""
     toks = toks_of(rel)
-    o, c = fn_body(toks, "evaluate_statement", rel)
     brace = -1
-    for mi in find_all(toks, ["match"], o, c):
-        b = find_seq(toks, ["{"], mi, c)
-        if "next_token()" in text_of(toks[mi + 1:b]):
+    for mi in find_all(toks, ["match"]):
+        b = -1
+        for k in range(mi + 1, min(len(toks), mi + 30)):
+            if is_p(toks[k], "{"):
+                b = k
+                break
+            if is_p(toks[k], ";"):
+                break
+        if b < 0 or "next_token()" not in text_of(toks[mi + 1:b]):
+            continue
+        if any(find_seq(pat, ["Token", "::", "Dim"]) >= 0 for pat, _b in match_arms(toks, b)):
+            need(brace < 0, rel + ": statement dispatch (two candidates)")
             brace = b
-            break
-    need(brace >= 0, rel + ": evaluate_statement dispatch")
+    need(brace >= 0, rel + ": statement dispatch")
     heads = []
     for pat, _b in match_arms(toks, brace):
         if pat and is_id(pat[0], "Some"):
             for i in find_all(pat, ["Token", "::", ("id", None)]):
                 heads.append(pat[i + 2][1])
-    need(heads, rel + ": evaluate_statement arms")
+    need(heads, rel + ": statement dispatch arms")
     return heads
 
 
